@@ -4,6 +4,7 @@
 import Asn1.Generated
 import Proofs.Parse
 import Proofs.Codec
+import Proofs.Mono
 
 namespace Asn1.C02
 
@@ -91,5 +92,39 @@ example :
     t.reg Generated.derEnc true = true ∧ t.WF = true ∧ HasType t v = true ∧ noE3 true t v = true ∧
       (encItem Generated.derEnc {} t v).toOption.isSome = true := by
   decide +kernel
+
+
+/-- the decoder tables form a chain: DER is a restriction of CER, CER of BER (generated tables) -/
+theorem der_stricter_cer : Generated.derDecByType.Stricter Generated.cerDecByType :=
+  { indef := fun h => (by cases h), bool := fun h => (by cases h), bits := fun h => (by cases h),
+    strs := fun k h => (by simp [Generated.derDecByType] at h) }
+
+theorem cer_stricter_ber : Generated.cerDecByType.Stricter Generated.berDecByType :=
+  { indef := fun _ => rfl, bool := fun h => (by cases h), bits := fun _ => rfl, strs := fun _ h => h }
+
+theorem der_stricter_ber : Generated.derDecByType.Stricter Generated.berDecByType :=
+  { indef := fun h => (by cases h), bool := fun h => (by cases h), bits := fun h => (by cases h),
+    strs := fun k h => (by simp [Generated.derDecByType] at h) }
+
+/-- **decoders that accept the same octets agree** — for *any* octets and *any* type (no region):
+    whatever DER accepts, CER and BER accept with the same value and remainder; whatever CER
+    accepts, BER accepts with the same value and remainder.  Hence any two of the three decoders
+    that both accept return the same abstract value. -/
+theorem accepting_decoders_agree (t : Ty) (bs : Bytes) :
+    (∀ r, decodeOne Generated.derDecByType t bs = .ok r → decodeOne Generated.cerDecByType t bs = .ok r) ∧
+    (∀ r, decodeOne Generated.derDecByType t bs = .ok r → decodeOne Generated.berDecByType t bs = .ok r) ∧
+    (∀ r, decodeOne Generated.cerDecByType t bs = .ok r → decodeOne Generated.berDecByType t bs = .ok r) :=
+  ⟨fun r h => decodeOne_mono _ _ der_stricter_cer t bs r h,
+   fun r h => decodeOne_mono _ _ der_stricter_ber t bs r h,
+   fun r h => decodeOne_mono _ _ cer_stricter_ber t bs r h⟩
+
+theorem two_accepting_decoders_same_value (t : Ty) (bs : Bytes) (r1 r2 : Val × Bytes)
+    (h1 : decodeOne Generated.derDecByType t bs = .ok r1 ∨ decodeOne Generated.cerDecByType t bs = .ok r1)
+    (h2 : decodeOne Generated.berDecByType t bs = .ok r2) : r1 = r2 := by
+  rcases h1 with h1 | h1
+  · have := (accepting_decoders_agree t bs).2.1 r1 h1
+    rw [h2] at this; exact (Except.ok.inj this).symm
+  · have := (accepting_decoders_agree t bs).2.2 r1 h1
+    rw [h2] at this; exact (Except.ok.inj this).symm
 
 end Asn1.C02
